@@ -4,7 +4,8 @@ specification and compared, bit for bit, with numpy-computed expectations; K-ifl
 import numpy as np
 import impl
 import datagen
-from common import text
+import filemodel
+from common import text, U
 
 EXTRA_COQ_FILES = ('GenFacts/ConstantsOK.v',)
 RULE = ('frames of 1..4 channels over the 8 dtypes x byte order {<,>} x scalar/width {1,2,3,7,>capacity} x layout {C,F,strided,'
@@ -64,6 +65,7 @@ def build_case(rng, k):
 
 def run(ctx):
     rewrite_cases(ctx)
+    long_frame_case(ctx)
     rng = ctx.rng('frames')
     n = 120 if ctx.tier == 'quick' else 1500
     for k in range(n):
@@ -135,6 +137,36 @@ def run(ctx):
             dlisio_crosscheck(ctx, spec, df, data)
 
 
+def long_frame_case(ctx):
+    """A frame with more rows than the largest 2-byte frame number (16383): the numbering must go on 16384, 16385, ... in the
+    4-byte form, every record decodable and in input order."""
+    from dliswriter import DLISFile
+    n = 16390 if ctx.tier == 'quick' else 40000
+    vals = (np.arange(n) % 251).astype(np.uint8)
+    df = DLISFile()
+    lf = df.add_logical_file()
+    lf.add_origin('O', file_set_number=1, origin_reference=1, creation_time='2020/01/01 00:00:00')
+    ch = lf.add_channel('A', data=vals)
+    lf.add_frame('F', channels=[ch])
+    o = impl.outcome(lambda: impl.write_real(df, in_chunk=4096))
+    ctx.count('K-longframe', key=n)
+    if o[0] != 'ok':
+        ctx.violation('long-frame-write-raises', {'rows': n, 'impl': o})
+        return
+    # the record bodies as handed to the segmenter (lr-tap); their way through segments and visible records is C02's subject
+    bodies = [b for e, t, b in o[1]['recs'] if not e and t == 0]
+    if len(bodies) != n:
+        ctx.violation('long-frame-record-count', {'rows': n, 'records': len(bodies)})
+        return
+    # check the records around the form boundaries and a sample exactly: obname (1,0,'F') ++ UVARI(i) ++ value byte
+    idxs = sorted(set(list(range(120, 135)) + list(range(16376, 16390)) + [1, 2, n - 1, n]))
+    want = ctx.model.batch([[12, [1, 0, text('F')], i, [[1, U([int(vals[i - 1])])]]] for i in idxs])
+    for i, w in zip(idxs, want):
+        if w[0] != 0 or bodies[i - 1] != w[1]:
+            ctx.violation('long-frame-record-differs', {'rows': n, 'frame_number': i, 'record': bodies[i - 1].hex(), 'expected': w[1].hex() if w[0] == 0 else None})
+            return
+
+
 def rewrite_cases(ctx):
     """The same DLISFile written twice with different data of the same shape, and inline data overridden by the dict
     passed to write(): the records must carry the data of THAT write."""
@@ -146,14 +178,21 @@ def rewrite_cases(ctx):
         c1 = datagen.gen_channel(rng, rows, 'A', dtype=dt, width=None, order='<', layout='C', cast=None)
         c2 = dict(c1, seed=c1['seed'] + 1)
         c3 = dict(c1, seed=c1['seed'] + 2)
-        mode = rng.choice(['two_dicts', 'inline_then_dict', 'inline_twice'])
+        mode = rng.choice(['two_dicts', 'inline_then_dict', 'inline_twice', 'two_dtypes', 'two_dtypes'])
+        if mode == 'two_dtypes':
+            # the second write supplies data of ANOTHER dtype: the channel keeps the representation code of the first write (the
+            # derived code persists, D9), so the records must hold the new values converted to that code - and be consistent with it
+            dt, dt2 = rng.choice([('float64', 'float32'), ('float64', 'int16'), ('int32', 'uint8'), ('int32', 'int16'), ('float32', 'uint16'), ('uint32', 'uint8')])
+            c1 = datagen.gen_channel(rng, rows, 'A', dtype=dt, width=None, order='<', layout='C', cast=None)
+            c2 = dict(c1, seed=c1['seed'] + 1)
+            c3 = dict(datagen.gen_channel(rng, rows, 'A', dtype=dt2, width=None, order='<', layout='C', cast=None), cast=dt)
         df = DLISFile()
         lf = df.add_logical_file()
         lf.add_origin('O', file_set_number=1, origin_reference=1, creation_time='2020/01/01 00:00:00')
-        ch = lf.add_channel('A', data=datagen.physical_array(c1) if mode != 'two_dicts' else None)
+        ch = lf.add_channel('A', data=datagen.physical_array(c1) if mode not in ('two_dicts', 'two_dtypes') else None)
         lf.add_frame('F', channels=[ch])
         writes = []
-        if mode == 'two_dicts':
+        if mode in ('two_dicts', 'two_dtypes'):
             writes = [({'A': datagen.physical_array(c2)}, c2), ({'A': datagen.physical_array(c3)}, c3)]
         elif mode == 'inline_then_dict':
             writes = [(None, c1), ({'A': datagen.physical_array(c2)}, c2), ({'A': datagen.physical_array(c3)}, c3)]
@@ -173,6 +212,16 @@ def rewrite_cases(ctx):
             if bodies is None or bodies != [w[1] for w in want]:
                 ctx.violation('records-do-not-carry-the-data-of-this-write', det)
                 break
+            # ... and the CHANNEL object of THIS file declares the representation code the records are written in
+            dfile = filemodel.read_file(ctx, o[1]['file'], 8192)
+            if dfile.ok:
+                chobj = dfile.sets('CHANNEL')[0].objects[0]
+                rc = chobj.attrs.get('REPRESENTATION-CODE')
+                declared = rc.values[0][1] if rc is not None and rc.values else None
+                if declared != datagen.CODE[cexp['cast'] or cexp['dtype']]:
+                    ctx.violation('channel-declares-another-code-than-its-records-use', {**det, 'declared': declared,
+                                                                                        'records_written_as': cexp['cast'] or cexp['dtype']})
+                    break
 
 
 def dlisio_crosscheck(ctx, spec, df, data):
